@@ -28,5 +28,10 @@ rc=0
 # litmus tests of the happens-before race detector
 (cd $verif && VERIF_DIR=$verif ./bin/gosym check -spec modelcheck/racespec -noevidence 2>&1 | grep "^\[RACEMODEL\]\|^OK\|VIOLATION\|UNCONFIRMED\|INCONCLUSIVE"; exit ${PIPESTATUS[0]}) || rc=1
 rm -rf $work
+# the repository's own tests executed by the engine (translator validation).
+# This step depends on /repo's current tree: a disagreement is reported, but
+# fails setup only with REPOTESTS_STRICT=1 (as run while developing), so that
+# a changed tree under check can never block the checks themselves.
+$here/repotests/run.sh || { [ -n "$REPOTESTS_STRICT" ] && rc=1; }
 [ $rc = 0 ] && echo "modelcheck ok"
 exit $rc
